@@ -41,6 +41,19 @@
              from the raw JSON) and in the answer's convertedObjects.  Compared with
              C15_EncModel.serve_e (ExtractAPIVersions with one fresh decoding per element), judged by
              P_search and C15_EncSpec.P_enc (an element without apiVersion is not at the desired version).
+   CMulti:   SEVERAL CRDs served by one operator (C15_MultiModel): [decls] = every declared rule with the CRD
+             (a number; its name is crd_text) of the binding that lists it, in the order the hook manager meets
+             them (hooks in order, bindings, rules); real hooks, ONE hook manager with its ONE ChainStorage,
+             one router; [reqs] = ConversionReviews posted one after the other to /<crd name>, alternating
+             between the CRDs, per request its CRD and what CHandler records (the chain is what the hook
+             manager's FindConversionChain(crd name, pair) answered; a hook that ran for a rule is recorded
+             under that rule only if it is the hook and binding that declared the rule FOR THAT CRD).
+             Compared with find_session on build decls (found / not found per request) and serve_multi
+             (the request's own CRD's links); judged per request by C15_MultiSpec.P_request: P_search against
+             the rules declared for the request's CRD, and P_handler.
+   CMSearch: the ChainStorage alone with several CRDs (filled by Get(crd).Put(rule) in the order of [decls]) and
+             a sequence of FindConversionChain(crd, pair) calls on it, with the chain (or nil) returned for each:
+             found / not found compared with find_session, every answer judged by all_P_multi.
    CCrash:   the implementation panicked / the harness could not observe.
 
    Because Go iterates maps, WHICH valid chain is returned is not determined: chains are
@@ -49,6 +62,7 @@
    complete run of the handler. *)
 From Coq Require Import String.
 From Verif Require Import Common C15_Model C15_Spec C15_BindModel C15_BindSpec C15_EncModel C15_EncSpec.
+From Verif Require Import C15_MultiModel C15_MultiSpec.
 
 Inductive case :=
 | CSearch (rules : list rule) (shared : bool) (qs : list rule) (answers : list (option (list rule)))
@@ -59,6 +73,8 @@ Inductive case :=
           (chain : option (list rule)) (req : list obj) (outs : list outcome) (trace : list delivery) (ans : review)
 | CEnc (rules : list rule) (src desired : version) (dtext : bytes) (chain : option (list rule))
        (req : list obj) (outs : list eoutcome) (trace : list einvocation) (ans : ereview)
+| CMulti (decls : list (N * rule)) (mreqs : list (N * sreq))
+| CMSearch (decls : list (N * rule)) (mqs : list (N * rule)) (answers : list (option (list rule)))
 | CCrash
 with sreq :=
 | SReq (src desired : version) (dtext : bytes) (chain : option (list rule))
@@ -70,6 +86,7 @@ Inductive mobs :=
 | MSession (found : list bool) (res : list (list invocation * review))
 | MParams (found : bool) (trace : list delivery) (ans : review)
 | MEnc (found : bool) (trace : list einvocation) (ans : ereview)
+| MMulti (found : list bool) (res : list (list invocation * review))
 | MCrash.
 
 Definition is_some {A} (o : option A) : bool := match o with Some _ => true | None => false end.
@@ -83,6 +100,18 @@ Definition sreq_seen (q : sreq) : list invocation * review := match q with SReq 
 
 (* the CRD of every generated configuration (quoted by the "no hook found" error) *)
 Definition crd_name : bytes := str "crontabs.stable.example.com".
+
+(* the CRDs of the multi-CRD configurations, as the URL path and the "no hook found" error spell them *)
+Definition crd_text (x : N) : bytes :=
+  match x with
+  | 0 => crd_name
+  | 1 => str "backups.stable.example.com"
+  | 2 => str "reports.stable.example.com"
+  | _ => str "widgets.stable.example.com"
+  end%N.
+
+Definition mreq_pair (p : N * sreq) : N * rule := (fst p, sreq_query (snd p)).
+Definition mreq_mquery (p : N * sreq) : mquery := (fst p, crd_text (fst p), sreq_query (snd p), sreq_squery (snd p)).
 
 Definition model_obs (c : case) : mobs :=
   match c with
@@ -100,6 +129,10 @@ Definition model_obs (c : case) : mobs :=
   | CEnc rules src desired dtext chain req outs _ _ =>
     let '(t, a) := serve_e dtext desired (chain_of chain) outs (map wf req) in
     MEnc (is_some (snd (find rules (base_cache rules) (src, desired)))) t a
+  | CMulti decls mreqs =>
+    MMulti (map is_some (find_session (build decls) (map mreq_pair mreqs)))
+           (serve_multi (build decls) (map mreq_mquery mreqs))
+  | CMSearch decls mqs _ => MSearch (map is_some (find_session (build decls) mqs))
   | CCrash => MCrash
   end.
 
@@ -151,6 +184,10 @@ Definition agrees (c : case) : bool :=
     same_rules rules hooks && Bool.eqb found (is_some chain) && list_eqb delivery_eqb t trace && answer_eqb a ans
   | CEnc _ _ _ _ chain _ _ trace ans, MEnc found t a =>
     Bool.eqb found (is_some chain) && list_eqb einv_eqb t trace && eanswer_eqb a ans
+  | CMSearch _ _ answers, MSearch found => list_eqb Bool.eqb found (map is_some answers)
+  | CMulti _ mreqs, MMulti found res =>
+    list_eqb Bool.eqb found (map (fun p => sreq_found (snd p)) mreqs)
+    && list_eqb seen_eqb res (map (fun p => sreq_seen (snd p)) mreqs)
   | _, _ => false
   end.
 
@@ -166,6 +203,12 @@ Definition P (c : case) : bool :=
     P_search rules src desired chain && P_params hooks desired (chain_of chain) outs req trace ans
   | CEnc rules src desired _ chain req outs trace ans =>
     P_search rules src desired chain && P_enc desired (chain_of chain) outs (map wf req) trace ans
+  | CMulti decls mreqs =>
+    forallb (fun p => match p with
+                      | (x, SReq src desired _ chain req outs trace ans) =>
+                        P_request decls x src desired chain outs req trace ans
+                      end) mreqs
+  | CMSearch decls mqs answers => all_P_multi decls mqs answers
   | CCrash => false
   end.
 
@@ -200,6 +243,14 @@ Definition SQ (src desired : N) (dtext : bytes) (chain : list N) (req : list obj
 Definition CSS (rules : list rule) (owners : list N) (hsets : list (option hsettings))
            (qs : list (list rule -> sreq)) : case :=
   CSession rules owners hsets (map (fun f => f rules) qs).
+
+(* multi-CRD notation: a request is written like a session request; its chain and trace positions refer
+   to the rules declared for ITS CRD (declared_for decls crd, in the order of decls) *)
+Definition CM (decls : list (N * rule)) (qs : list (N * (list rule -> sreq))) : case :=
+  CMulti decls (map (fun p => (fst p, snd p (declared_for decls (fst p)))) qs).
+
+Definition CMS (decls : list (N * rule)) (mqs : list (N * rule)) (answers : list (list N)) : case :=
+  CMSearch decls mqs (map (fun p => chain_at (declared_for decls (fst (fst p))) (snd p)) (combine mqs answers)).
 
 (* params notation: a group is a number, 0 = no group; the type of a binding context is a code *)
 Definition og (g : N) : option N := if N.eqb g 0 then None else Some g.
